@@ -17,6 +17,9 @@ type SubscriptionService struct {
 	// pub sub stuff
 	Mu   sync.Mutex
 	Subs map[uint32]*Subscription
+
+	// lastSubID is the id of the most recently created subscription.
+	lastSubID uint32
 }
 
 // get rid of all references to a subscription and all monitored items that are pointed at this subscription.
@@ -55,7 +58,13 @@ func (s *SubscriptionService) CreateSubscription(sc *uasc.SecureChannel, r ua.Re
 	s.Mu.Lock()
 	defer s.Mu.Unlock()
 
-	newsubid := uint32(len(s.Subs)) + 1
+	// the id must not be in use by another subscription. The number of
+	// subscriptions is not suitable since subscriptions can be deleted.
+	s.lastSubID++
+	for s.lastSubID == 0 || s.Subs[s.lastSubID] != nil {
+		s.lastSubID++
+	}
+	newsubid := s.lastSubID
 
 	if s.srv.cfg.logger != nil {
 		s.srv.cfg.logger.Info("New Sub %d for %v", newsubid, sc.RemoteAddr())
